@@ -197,6 +197,39 @@ def collect(c, t, order, s, exact, renumbered):
     return o
 
 
+STEM_N, STEM_K = 20, 10000
+CUBE = [(0, 0, 0), (1, 0, 0), (1, 1, 0), (0, 1, 0), (0, 1, 1), (1, 1, 1), (1, 0, 1), (0, 0, 1)]
+
+
+def observe_stem(c, rng):
+    """the case's tree behind a long stem (Morph.StemP / StemPos): 20 segments of 10^4 lattice units along the edges of a cube, so that coordinates stay
+    small while path distances reach 2 * 10^5 units; the unit is 0.37 (nothing is exactly representable); lengths only"""
+    from swcgeom.analysis.feature_extractor import extract_feature
+    from swcgeom.analysis.features import BranchFeatures
+    from swcgeom.analysis.lmeasure import LMeasure
+    from swcgeom.core import Tree
+    s = 0.37
+    P0, pos0 = c["P"], c["pos"]
+    stem = [[STEM_K * v for v in CUBE[j % 8]] for j in range(STEM_N + 1)]
+    e = stem[-1]
+    P = [-1] + list(range(STEM_N)) + [STEM_N if p == -1 else p + STEM_N + 1 for p in P0]
+    pos = np.array(stem + [[e[0] + 1 + q_[0], e[1] + q_[1], e[2] + q_[2]] for q_ in pos0], dtype=np.float64) * s
+    n = len(P)
+    t = Tree(n, source=lib.SRC, id=np.arange(n, dtype=np.int32), pid=np.array(P, dtype=np.int32), type=np.array([1] + [3] * (n - 1), dtype=np.int32),
+             x=pos[:, 0].astype(np.float32), y=pos[:, 1].astype(np.float32), z=pos[:, 2].astype(np.float32), r=np.full(n, 0.5, dtype=np.float32))
+    fe, lm = extract_feature(t), LMeasure()
+    o = {"length": q(t.length(), s), "length_fe": q(fe.get("length")[0], s)}
+    brs = t.get_branches()
+    o["branch_len_sum"] = q(sum(float(v) for v in fe.get("branch_length")), s)
+    bl = BranchFeatures(t).get_length()
+    o["branches"] = [[int(b.origin_id()[-1]), int(b.origin_id()[0]), q(bl[k], s), 0] for k, b in enumerate(brs)]
+    pl = fe.get("path_length")
+    o["paths"] = [[int(p.origin_id()[-1]), q(pl[k], s), 0] for k, p in enumerate(t.get_paths())]
+    o["lm_node"] = [[q(lm.path_distance(t.node(k)), s), 0, 0, 0] for k in range(n)]
+    o["lm_branch"] = [[int(b.origin_id()[-1]), q(lm.branch_pathlength(b), s), 0, int(lm.fragmentation(b))] for b in brs]
+    return o
+
+
 def observe_pop(c, rng):
     from swcgeom.core import Population
     from swcgeom.analysis.feature_extractor import extract_feature
